@@ -22,8 +22,8 @@ import (
 )
 
 func flight4bParse(
-	_ context.Context,
-	_ dtlsflight.Conn,
+	ctx context.Context,
+	conn dtlsflight.Conn,
 	state *dtlsstate.State12,
 	cache *dtlsflight.Cache,
 	cfg *dtlsconfig.HandshakeConfig,
@@ -56,6 +56,12 @@ func flight4bParse(
 	}
 	if !bytes.Equal(expectedVerifyData, finished.VerifyData) {
 		return 0, &alert.Alert{Level: alert.Fatal, Description: alert.HandshakeFailure}, dtlserrors.ErrVerifyDataMismatch
+	}
+
+	// Records of the new epoch that overtook the client's ChangeCipherSpec
+	// were put aside: they can be read now.
+	if err := conn.HandleQueuedPackets(ctx); err != nil {
+		return 0, &alert.Alert{Level: alert.Fatal, Description: alert.InternalError}, err
 	}
 
 	// Other party may re-transmit the last  Keep state to be Flight4b.
